@@ -2453,7 +2453,7 @@ func (s *Sim) event(fr *Frame, st *State, ev string, in ssa.Instruction) {
 	}
 	for i := range s.T.Requires {
 		r := &s.T.Requires[i]
-		if r.Event == ev && (r.Func == "" || r.Func == fn) {
+		if r.Event == ev && (r.Func == "" || r.Func == fn || (r.Inlined && frameHas(fr, r.Func))) {
 			if r.Param != "" {
 				applies := false
 				if fr != nil {
